@@ -95,6 +95,9 @@ def run(ctx, res):
         res.check(not bad, "C09.R2", site(g, "job-record-untouched"), "the path from compression to the file does not modify data/len_data/crc",
                   "%s modifies %s of a finished block" % (fn, bad))
 
+    # every block that reaches the file has had its checksum defined on every path (definite assignment)
+    _crc_definitely_assigned(ctx, res)
+
     # ---- R3 restart cadence ---------------------------------------------------------------
     res.floor("C09.R3", 3)
     add = prog.need("block_builder_add", fmt.BB)
@@ -289,3 +292,139 @@ def run(ctx, res):
     for v in sub.viol:
         if v["rule"] == "C10.R1" and v["site"].startswith("metadata_write:"):
             res.bad("C09.R1", v["site"], v["what"], v["loc"], v["detail"])
+
+
+def _crc_definitely_assigned(ctx, res):
+    """C09.R2 (second half): the crc field is read by the block-writing function; on every path by which a block
+    record reaches it - inline, or through the pool (work function -> result callback) - the field was stored,
+    directly or by a callee that stores it on all of its own paths."""
+    prog, cg = ctx.prog, ctx.cg
+    W = "mtbl/writer.c"
+    REC = "data_block"
+    funcs = [g for g in prog.unit_funcs(W) if g.file.endswith("writer.c")]
+    paths = {}
+
+    def P(g):
+        if g.name not in paths:
+            paths[g.name] = [p for p in APE.run(prog, cg, g, bound=1).paths if p.end == "exit"]
+        return paths[g.name]
+
+    def is_block_ptr(prm):
+        t = (prm.get("ct") or prm["t"])
+        return "struct %s *" % REC in t or t.strip() in ("void *",)
+
+    def strip_ver(x):
+        return re.sub(r"@\d+", "", x)
+
+    # --- functions that define crc of a parameter on every path (fixpoint)
+    must = set()     # (function name, parameter index)
+    changed = True
+    while changed:
+        changed = False
+        for g in funcs:
+            for k, prm in enumerate(g.params):
+                if (g.name, k) in must or not is_block_ptr(prm):
+                    continue
+                pn = prm["name"]
+                ps = P(g)
+                if not ps:
+                    continue
+                allp = True
+                some = False
+                for p in ps:
+                    if any(a == pn and b == "#0" and v <= frozenset((EQ,)) for (a, b), v in p.cons.items()):
+                        continue     # the parameter is NULL on this path: no block
+                    ok = False
+                    for e in p.events:
+                        if e.kind == "store" and strip_ver(e.a) == "%s->crc" % pn:
+                            ok = True
+                        elif e.kind == "store" and e.a.isidentifier() and e.b is not None and APE.vstr(e.b) == pn:
+                            pass
+                        elif e.kind == "call":
+                            for j, v in enumerate(e.b):
+                                if APE.vstr(v) == pn and (e.a, j) in must:
+                                    ok = True
+                    # stores through a local alias of the parameter (struct data_block *b = block)
+                    if not ok:
+                        aliases = set(e.a for e in p.events if e.kind == "store" and e.a.isidentifier() and e.b is not None and APE.vstr(e.b) == pn)
+                        ok = any(e.kind == "store" and strip_ver(e.a) in ("%s->crc" % a for a in aliases) for e in p.events)
+                    some = some or ok
+                    if not ok:
+                        allp = False
+                if allp and some:
+                    must.add((g.name, k))
+                    changed = True
+    # --- functions that read crc of a parameter (directly or by passing it on)
+    readers = set()
+    for g in funcs:
+        for k, prm in enumerate(g.params):
+            if not is_block_ptr(prm):
+                continue
+            pn = prm["name"]
+            for n in walk(g.body):
+                if n["k"] == "MemberExpr" and n.get("field") == "crc" and n.get("rec") == REC:
+                    par = g.nodes.get(g.parent.get(n["id"]))
+                    store = par is not None and MR.is_store(par) and strip(par["kids"][0]) is n
+                    if not store and canon(strip(n["kids"][0])) == pn:
+                        readers.add((g.name, k))
+    changed = True
+    while changed:
+        changed = False
+        for g in funcs:
+            for k, prm in enumerate(g.params):
+                if (g.name, k) in readers or not is_block_ptr(prm):
+                    continue
+                pn = prm["name"]
+                for c in [n for n in walk(g.body) if n["k"] == "CallExpr"]:
+                    for j, a in enumerate(call_args(c)):
+                        b = base_decl(a)
+                        if (c.get("callee"), j) in readers and b and b[0] == "param" and b[1] == k:
+                            readers.add((g.name, k))
+                            changed = True
+    if not readers:
+        raise BrokenAnalysis("no function reads the crc field of a block record: the writer's framing moved")
+    res.tables["crc_must_define"] = sorted("%s#%d" % x for x in must)
+    res.tables["crc_readers"] = sorted("%s#%d" % x for x in readers)
+    # --- call sites that start a block's journey to a reader
+    nsite = 0
+    for g in funcs:
+        for p in P(g):
+            evs = p.events
+            for i, e in enumerate(evs):
+                if e.kind != "call":
+                    continue
+                for j, v in enumerate(e.b):
+                    if (e.a, j) not in readers:
+                        continue
+                    vs = APE.vstr(v)
+                    if any(vs == prm["name"] and (g.name, k) in readers for k, prm in enumerate(g.params)):
+                        continue    # passing its own parameter on: the obligation lies with g's callers
+                    nsite += 1
+                    obj = vs[1:] if vs.startswith("&") else vs
+                    names = ("%s.crc" % obj, "%s->crc" % obj)
+                    ok = False
+                    for x in evs[:i]:
+                        if x.kind == "store" and strip_ver(x.a) in names:
+                            ok = True
+                        elif x.kind == "call" and any(APE.vstr(a) == vs and (x.a, jj) in must for jj, a in enumerate(x.b)):
+                            ok = True
+                    res.check(ok, "C09.R2", site(g, "crc-defined-before:%s(%s)" % (e.a, strip_ver(vs))),
+                              "the block handed to %s has its checksum stored on this path" % e.a,
+                              "a block reaches %s with its crc field never assigned on this path: the four checksum bytes written to the file are "
+                              "whatever the record held (stack or heap garbage), so an intact file fails verification" % e.a,
+                              g.loc(e.node), p.describe(g))
+    # --- pool route: the work function given to the pool must define crc of what it returns
+    for g in funcs:
+        for c in g.calls("threadpool_dispatch"):
+            a = call_args(c)
+            fn = strip(a[3]) if len(a) > 3 else None
+            name = fn.get("name") if fn is not None and fn["k"] == "DeclRefExpr" else None
+            if name is None:
+                continue
+            nsite += 1
+            res.check((name, 0) in must, "C09.R2", site(g, "crc-defined-by-worker:%s" % name),
+                      "the pool's work function stores the checksum of every block it returns",
+                      "the pool's work function %s returns a block on some path without having stored its checksum: the result callback writes "
+                      "garbage checksum bytes for those blocks" % name, g.loc(c))
+    if nsite < 3:
+        raise BrokenAnalysis("checksum definite-assignment rule found %d block hand-over sites, expected at least 3" % nsite)
